@@ -463,6 +463,18 @@ func (in *Inst) applyUJ(o OpUJ) (fs []seqx.Finding, outcome string) {
 		}
 	}
 	if sinkFailed {
+		// the checkpoints were advanced before pruning started and the nodes that are left over are not viable: the head
+		// is the model's head ("the head stays inside the finalized subtree", "later ... keep working")
+		exp, st := in.M.Head(in.M.HeadAnchor())
+		var got forkchoice.NodeRef
+		var herr error
+		if pm, _ := guard(func() { got, herr = in.FC.Head() }); pm != "" {
+			add([]string{"C10"}, "sink-failure/head/panic", "Head() after the sink failure: "+pm)
+		} else if c := headClass(herr); c != st {
+			add([]string{"C10"}, "sink-failure/head/status-"+headClassNames[c], fmt.Sprintf("Head() after the sink failure: status %s (%v), expected %s", headClassNames[c], herr, headClassNames[st]))
+		} else if st == HeadOK && (Root(got.Root) != exp.Root || Slot(got.Slot) != exp.Slot) {
+			add([]string{"C10"}, "sink-failure/head/mismatch", fmt.Sprintf("Head() after the sink failure = %s@%d, LMD-GHOST winner is %s\n%s", rootName(Root(got.Root)), got.Slot, exp, in.explain()))
+		}
 		return
 	}
 	for _, p := range res.Pruned {
